@@ -86,7 +86,8 @@ def per_variant_push(ctx, F, rule, fn, b, nxt, elem_local, is_pushed, what, hist
     variants = payload_variants(F)
     ctx.floor(rule, len(variants), 3, "variants of entry_payload::Payload")
     for v in variants:
-        arms = [c.edge["dst"] for c in conds.values() if c.kind == "discr" and c.variants == {v} and ends(c.adt or "", "entry_payload::Payload")]
+        # an arm may cover several variants (`Payload::Noop(_) | Payload::Config(_) => ..`)
+        arms = [c.edge["dst"] for c in conds.values() if c.kind == "discr" and c.variants and v in c.variants and ends(c.adt or "", "entry_payload::Payload")]
         if not arms:
             ctx.bad(rule, "%s#%s-arm" % (fkey(fn), v), "no arm for Payload::%s: %s" % (v, hist % v), "%s:%s" % (b.file, b.line))
             continue
@@ -241,7 +242,7 @@ def run(ctx):
     loops = loop_over(F, dec, lambda s: any(y[0] == "param" and y[1] == 1 for y in s.sources))
     ctx.floor("C06-d", len(loops), 1, "`for entry in entries` in decode_entries")
     aggs = agg_sites(dec, "command::ApplyEntry")
-    ctx.floor("C06-d", len(aggs), 3, "ApplyEntry constructions in decode_entries")
+    ctx.floor("C06-d", len(aggs), 1, "ApplyEntry constructions in decode_entries (one per arm, or one after the match)")
     for (it, nxt, el) in loops[:1]:
         def is_apply_entry(t):
             s = Slice(F, dec).operand(t["args"][1])
@@ -257,7 +258,7 @@ def run(ctx):
                 s = Slice(F, dec).operand(agg_field(st, fld))
                 fs = set((strip_generics(y[1]).split("::")[-1], y[2]) for y in s.sources if y[0] == "field" and strip_generics(y[1]).startswith("d_engine_"))
                 ok = fs == {("Entry", fld)} and el in s.seen and not s.consts() and not any(y[0] == "binop" for y in s.sources)
-                variants = [v for v in payload_variants(F) if guarded_by(dec, bi, lambda c: c.kind == "discr" and c.variants == {v} and ends(c.adt or "", "entry_payload::Payload"))[0]]
+                variants = [v for v in payload_variants(F) if guarded_by(dec, bi, lambda c: c.kind == "discr" and c.variants and v in c.variants and ends(c.adt or "", "entry_payload::Payload"))[0]]
                 ctx.check("C06-d", "%s#ApplyEntry(%s).%s" % (fkey(dec), "|".join(variants) or n, fld), ok, "%s = entry.%s" % (fld, fld),
                           "ApplyEntry.%s is not the %s of the entry being decoded (%s): the state machine records a wrong applied position" % (fld, fld, sorted(fs)), loc(dec, bi))
 
